@@ -196,7 +196,7 @@ pub fn site(p: &str) -> String {
 }
 
 pub fn run(ctx: &Ctx) {
-    ctx.set_rule("byte strings of length 0..=32 from (1) a structured generator: DF 0..31, own length 85 %, CA/CF/TC/subtype/version uniform, valid parity 90 %, DF16/20/21 payloads from 16 register templates with min/max/random fields, byte mixtures {random, 00, FF, one-hot, extremes, bit runs}; (2) uniform random bytes; (3) the repository's 39 test frames with 1-3 random field edits; (4) one base frame per (DF, CA/CF, TC, subtype, version, template) shape with every byte position swept over all 256 values (thorough: every 16-bit window of the ME/MB field over all 65536 values), parity refreshed. Oracle under catch_unwind: no panic in try_from / from_bytes / Display / Debug / alternate forms; accepted => length is the 7 or 14 bytes the DF prescribes; decoding twice equal; from_bytes consumes exactly the frame. (5) families of related inputs (same Comm-B payload under other headers, a truncated / padded copy and the frame, the same field under another DF, other address, one bit apart) each evaluated alone on a fresh thread (reference) and in the given and the reverse order on the worker thread: every evaluation must equal the reference; one frame per shape next to each of its 56 single-bit neighbours. Non-trivial = accepted frame or wrong-length input; distinct by hash of the bytes.");
+    ctx.set_rule("byte strings of length 0..=32 from (1) a structured generator: DF 0..31, own length 85 %, CA/CF/TC/subtype/version uniform, valid parity 90 %, DF16/20/21 payloads from 16 register templates with min/max/random fields, byte mixtures {random, 00, FF, one-hot, extremes, bit runs}; (2) uniform random bytes; (3) the repository's 39 test frames with 1-3 random field edits; (4) one base frame per (DF, CA/CF, TC, subtype, version, template) shape with every byte position swept over all 256 values (thorough: every 16-bit window of the ME/MB field over all 65536 values), parity refreshed. Oracle under catch_unwind: no panic in try_from / from_bytes / Display / Debug / alternate forms; accepted => length is the 7 or 14 bytes the DF prescribes; decoding twice equal; from_bytes consumes exactly the frame. (5) families of related inputs (same Comm-B payload under other headers, a truncated / padded copy and the frame, the same field under another DF, other address, one bit apart) each evaluated alone on a fresh thread (reference) and in the given and the reverse order on the worker thread: every evaluation must equal the reference; one frame per shape next to each of its 56 single-bit neighbours. (6) degenerate payloads exhaustively: character fields over {space, A, 0, reserved code} in BDS 2,0 / 0,8 / 2,1, and every 56-bit field with at most three bits set under DF17 / 18 / 20 / 21. Non-trivial = accepted frame or wrong-length input; distinct by hash of the bytes.");
     ctx.assume("termination is observed through the check's watchdog only (exit 2); the readers are loop-free over <= 14 bytes");
     let h = Hist::default();
     let suite = Suite::for_tier(ctx.tier);
@@ -247,6 +247,71 @@ pub fn run(ctx: &Ctx) {
             }
         }
         ctx.class_n("valid frames padded / cut to a wrong length", n);
+    }
+    // degenerate payloads, exhaustively: character fields over {space, 'A', '0', a reserved code} (BDS 2,1 with
+    // either status bit, BDS 2,0, BDS 0,8), and every 56-bit field with at most three bits set (sparse payloads pass
+    // several register hypotheses at once) under DF17 / 18 / 20 / 21
+    {
+        use rayon::prelude::*;
+        let alphabet = [32u64, 1, 48, 0];
+        let fails: std::sync::Mutex<Vec<vcore::ev::Failure>> = Default::default();
+        let run_one = |f: Vec<u8>| {
+            if let Err(e) = check_total(ctx, &h, &f) {
+                let mut g = fails.lock().unwrap();
+                if g.len() < 32 {
+                    g.push(e);
+                }
+            }
+        };
+        (0..4u32.pow(8)).into_par_iter().for_each(|code| {
+            let ch = |i: u32| alphabet[((code >> (2 * i)) & 3) as usize];
+            // BDS 2,0 in DF20, identification (TC 4) in DF17
+            let mut b = vcore::bits::Bits::new();
+            b.push(0x20, 8);
+            (0..8).for_each(|i| { b.push(ch(i), 6); });
+            run_one(vcore::enc::df20(0, 0, 0, vcore::enc::ac13_q(1200), &b.bytes().try_into().unwrap(), 0x4840d6));
+            let mut b = vcore::bits::Bits::new();
+            b.push(4, 5).push(3, 3);
+            (0..8).for_each(|i| { b.push(ch(i), 6); });
+            run_one(vcore::enc::df17(5, 0x4840d6, &b.bytes().try_into().unwrap()));
+            if code < 4u32.pow(7) {
+                // BDS 2,1: status, seven characters, airline part absent / present with two characters
+                for (status, tail) in [(1u64, 0u64), (0, 0), (1, 0x1041), (1, 0x1820)] {
+                    let mut b = vcore::bits::Bits::new();
+                    b.push(status, 1);
+                    (0..7).for_each(|i| { b.push(ch(i), 6); });
+                    b.push(tail, 13);
+                    let mb: [u8; 7] = b.bytes().try_into().unwrap();
+                    run_one(vcore::enc::df20(0, 0, 0, vcore::enc::ac13_q(1200), &mb, 0x4840d6));
+                    run_one(vcore::enc::df21(0, 0, 0, vcore::enc::id13(1, 2, 3, 4), &mb, 0x4840d6));
+                }
+            }
+        });
+        ctx.class_n("character fields over {space, A, 0, reserved}: BDS 2,0 / 0,8 (4^8 each), BDS 2,1 (4^7 x 4 x DF20/21)", 2 * 4u64.pow(8) + 8 * 4u64.pow(7));
+        let mut sparse: Vec<u64> = vec![0];
+        for a in 0..56u64 {
+            sparse.push(1 << a);
+            for b2 in a + 1..56 {
+                sparse.push(1 << a | 1 << b2);
+                for c in b2 + 1..56 {
+                    sparse.push(1 << a | 1 << b2 | 1 << c);
+                }
+            }
+        }
+        sparse.par_iter().for_each(|v| {
+            let mb: [u8; 7] = v.to_be_bytes()[1..8].try_into().unwrap();
+            run_one(vcore::enc::df20(0, 0, 0, vcore::enc::ac13_q(1200), &mb, 0x4840d6));
+            run_one(vcore::enc::df21(0, 0, 0, vcore::enc::id13(1, 2, 3, 4), &mb, 0x4840d6));
+            run_one(vcore::enc::df17(5, 0x4840d6, &mb));
+            run_one(vcore::enc::df18(2, 0x4840d6, &mb));
+        });
+        ctx.class_n("56-bit fields with at most three bits set under DF17 / 18 / 20 / 21", 4 * sparse.len() as u64);
+        let mut seen = std::collections::BTreeSet::new();
+        for e in fails.into_inner().unwrap() {
+            if seen.insert(e.signature.clone()) {
+                ctx.judge(Err(e));
+            }
+        }
     }
     // decoding is a function of the bytes only: related inputs in several orders on one thread
     drive_families_with(ctx, "c01", ctx.tier.pick(48_000, 160_000), &observable, Some(&|f| check_total(ctx, &h, f)));
